@@ -71,20 +71,22 @@ def make_overlay(pkg, workdir, native, extra=None):
 
 
 def run_symgo(unit, workdir, shard, of, tier):
+    """one symgo run of a unit: a coordinator process with `of` worker processes that share the unit's
+    paths dynamically (work is handed out in batches of open decision prefixes)"""
     pkg = unit["pkg"]
     pairs = make_overlay(pkg, workdir, native=False)
     out = os.path.join(workdir, "res_%s_%s_%d.json" % (unit["name"], unit.get("label", ""), shard))
-    cmd = [SYMGO, "-dir", REPO, "-pkg", "./" + PKGDIR[pkg], "-out", out, "-shard", str(shard), "-of", str(of)]
+    cmd = [SYMGO, "-dir", REPO, "-pkg", "./" + PKGDIR[pkg], "-out", out, "-workers", str(of)]
     for v, r in pairs:
         cmd += ["-overlay", "%s=%s" % (v, r)]
     for h in unit["harnesses"]:
         cmd += ["-harness", h]
     cmd += unit.get("args", [])
     cmd += unit.get(tier + "_args", [])
-    if shard == 0 and unit.get("smt_log"):
+    if unit.get("smt_log"):
         cmd += ["-smt-log", unit["smt_log"]]
     t0 = time.time()
-    r = sh(cmd, env=GOENV, timeout=unit.get("timeout", 3600))
+    r = sh(cmd, env=GOENV, timeout=unit.get("timeout", 7200))
     dt = time.time() - t0
     if r.returncode != 0 or not os.path.exists(out):
         return {"error": "symgo exit %d: %s" % (r.returncode, r.stdout[-2000:]), "unit": unit["name"], "shard": shard, "wall": dt}
@@ -182,35 +184,14 @@ def check(pid, tier, spec):
     only = os.environ.get("VERIF_UNITS")  # development aid: run a subset of the units (vacuity labels of the others will be missing)
     if only:
         units = [u for u in units if u["name"] in only.split(",")]
-    jobs = []
-    for u in units:
-        of = u.get(tier + "_shards", u.get("shards", 1))
-        each = u.get("fix_each")  # {"name": count}: one job per value of a vChoice, for load balance
-        if each:
-            (fname, count), = each.items()
-            values = list(range(count))
-            if tier == "quick" and u.get("quick_only_values"):
-                step = max(1, count // u["quick_only_values"])
-                values = values[::step]
-            for v in values:
-                u2 = dict(u)
-                u2["args"] = list(u.get("args", [])) + ["-fix", "%s=%d" % (fname, v)]
-                u2["label"] = "%s=%d" % (fname, v)
-                ofv = u.get("heavy_values", {}).get(v, of)
-                for s in range(ofv):
-                    jobs.append((u2, s, ofv))
-        else:
-            for s in range(of):
-                jobs.append((u, s, of))
-    jobs.sort(key=lambda j: -j[2])
+    # units run one after the other; each is explored by NCPU (or unit["workers"]) cooperating worker processes
     results = []
-    with cf.ThreadPoolExecutor(max_workers=NCPU) as ex:
-        futs = [ex.submit(run_symgo, u, workdir, s, of, tier) for (u, s, of) in jobs]
-        for f in futs:
-            try:
-                results.append(f.result())
-            except Exception as e:  # timeout etc.
-                results.append({"error": repr(e)})
+    for u in units:
+        w = max(1, min(NCPU, u.get("workers", NCPU)))
+        try:
+            results.append(run_symgo(u, workdir, 0, w, tier))
+        except Exception as e:  # timeout etc.
+            results.append({"error": repr(e)})
     # aggregate
     agg = {"paths": 0, "instrs": 0, "branches": 0, "unary": 0, "z3_branch": 0, "obligations": 0, "discharged": 0,
            "violated": 0, "inconclusive": 0, "cross_checked": 0, "solver_queries": 0, "solver_s": 0.0, "assume_cut": 0,
